@@ -135,7 +135,7 @@ def check_doc(cls, xsd, doc, ctx, st, expect_valid=None, sources=True, cli=True,
     if (sig2[0] == 'ok') != valid:
         out.append(rec('package_validate', valid, sig2))
     nsrc = 0
-    if valid:
+    if valid and sig[0] == 'ok':
         # modes
         skip_data = compare.objects(s, doc, validation='skip')
         if not (data_strict == lax_data == skip_data):
@@ -185,9 +185,14 @@ def check_doc(cls, xsd, doc, ctx, st, expect_valid=None, sources=True, cli=True,
                 if got != base_errs:
                     out.append(rec('source_kind_errors:' + name, base_errs[:3], got[:3]))
                     continue
-                if valid and name != 'XMLResource_lazy':
+                if valid and sig[0] == 'ok' and name != 'XMLResource_lazy':
                     src = mk()
-                    d = compare.objects(s, src)
+                    try:
+                        d = compare.objects(s, src)
+                    except xmlschema.XMLSchemaException as ex:
+                        out.append(rec('source_kind_data:' + name, 'same typed data as str source',
+                                       type(ex).__name__ + ': ' + str(ex)[:100]))
+                        continue
                     if d != data_strict:
                         out.append(rec('source_kind_data:' + name, 'same typed data as str source',
                                        compare.first_diff(data_strict, d)))
@@ -224,7 +229,7 @@ def make_case(rnd):
             k = rnd.choice([1, 1, 2, 3])
             chosen = []
             for _ in range(k):
-                f = rnd.choice(fs)
+                f = dg.pick_fault(rnd, fs)
                 # distinct nodes; a fault on a parent's child list may be combined with a fault on one of
                 # its children (two faults under one parent) - the deeper one is applied first
                 if all(f[1] != c[1] for c in chosen):
@@ -287,7 +292,7 @@ def check_cli_counts(ctx, st, ks, subprocess_too):
 
 def shards(tier, seed):
     n = 16
-    return [('gen', k, tier, seed) for k in range(n)] + [('cli', tier, seed)]
+    return [('gen', k, tier, seed) for k in range(n)] + [('cli', tier, seed)] + [('kinds', k, tier, seed) for k in range(4)]
 
 
 def run_shard(desc):
@@ -301,6 +306,26 @@ def run_shard(desc):
             for r in check_cli_counts(ctx, st, ks, subprocess_too=True):
                 core.report(st, PROPERTY, r)
             st.sample({'cli error counts tried': ks})
+        elif desc[0] == 'kinds':
+            # one document per fault kind present (identity / ID / default-IDREF faults are rare under uniform choice)
+            _, k, tier, seed = desc
+            n = 40 if tier == 'thorough' else 6
+
+            def body(rnd, st_):
+                g = dg.Gen(rnd, idc=True)
+                tree = g.inst()
+                fs = dg.applicable_faults(g, tree)
+                cls = xmlschema.XMLSchema11 if rnd.random() < 0.3 else xmlschema.XMLSchema10
+                xsd = g.xsd()
+                recs = []
+                for kind in sorted({f[0] for f in fs}):
+                    f = rnd.choice([x for x in fs if x[0] == kind])
+                    doc = dg.ser(dg.apply_fault(tree, f), default_ns=rnd.random() < 0.3)
+                    st_.cls('fault_kind:' + kind)
+                    recs += check_doc(cls, xsd, doc, ctx, st_, expect_valid=False, label=kind)
+                return recs
+            core.hyp_drive(st, PROPERTY, hst.randoms(use_true_random=False), body, n,
+                           core.derive_seed(seed, 'C04kinds', k))
         else:
             _, k, tier, seed = desc
             n = 200 if tier == "thorough" else 30
